@@ -5,7 +5,10 @@ import FxVerif.Model.Util
 
 Coin denominations are numbers: `d < 100` base denominations, `100 + 10 g + c` the bridge denomination of family `g` on
 chain `c` (any denomination may be made an alias of any registered denomination).  ERC-20 contracts are numbers
-(`0` = WFX, module-deployed and external contracts are numbered by the harness in order of appearance).
+(`0` = WFX, module-deployed and external contracts are numbered by the harness in order of appearance).  Receivers are
+parties (`partyAddr`): users 0-2, 3 erc20 module, 4 eth crosschain module, 5 fee collector, 6 gov, 7 a precompile
+address, 8 the zero address, 1000 + ct the account of contract ct (balances of contract accounts other than WFX are not
+printed and not kept by `compact`: they are never senders).
 Every answer is `<ok | err:kind> | <ledger> | <indexes>`; `mix …` lines are answered by the StateDB cache model. -/
 open FxVerif FxVerif.Util FxVerif.Model.Ledger FxVerif.Model.Flows FxVerif.Model.C08
 
@@ -30,7 +33,9 @@ def st0 : St := ⟨{ idx := idx0, L := ledger0 }, []⟩
 
 def nG : Nat := 8
 def nCt : Nat := 48
-def accts : List (String × Addr) := [("u0", .user 0), ("u1", .user 1), ("u2", .user 2), ("e", .erc20Mod), ("w", .wfx)]
+def accts : List (String × Addr) :=
+  [("u0", .user 0), ("u1", .user 1), ("u2", .user 2), ("e", .erc20Mod), ("w", .wfx),
+   ("m", partyAddr 4), ("f", partyAddr 5), ("g", partyAddr 6), ("p", partyAddr 7), ("z", partyAddr 8)]
 def coinIds : List Nat := List.range nG ++ (List.range nG).flatMap (fun g => (List.range 3).map (fun c => 100 + 10 * g + c))
 def assets : List (String × Asset) :=
   coinIds.map (fun d => (s!"d{d}", coinAsset d)) ++ (List.range nCt).map (fun ct => (s!"c{ct}", Asset.erc ct))
@@ -53,7 +58,8 @@ def compact (ext : List Nat) (L : Ledger) : Ledger :=
 def showLedger (L : Ledger) : String :=
   let bals := accts.flatMap fun (an, a) => assets.filterMap fun (sn, as) =>
     let v := L.bal as a
-    if v == 0 then none else some s!"{an}.{sn}={v}"
+    -- module accounts hold native coin for their own purposes: printed for the users, the erc20 module and WFX only
+    if v == 0 || (sn == "d0" && an.length == 1 && an != "e" && an != "w") then none else some s!"{an}.{sn}={v}"
   let sups := assets.filterMap fun (sn, as) =>
     if as == Asset.base 0 then none else
     let v := L.supply as
@@ -108,6 +114,16 @@ def step (st : St) (line : String) : St × String :=
   | ["funde", ct, u, n] =>
     match nats [ct, u, n] with
     | some [ct, u, n] => answer { st with u := { st.u with L := compact st.ext (mintTo st.u.L (.erc ct) (.user u) n) } } "ok"
+    | _ => (st, "bad-op")
+  | ["xfer", ct, u, p, n] =>
+    -- a direct `token.transfer(party, n)` by user `u` (not a message of the erc20 module)
+    match nats [ct, u, p, n] with
+    | some [ct, u, p, n] =>
+      -- FIP20 `_transfer` reverts on the zero address
+      if partyAddr p = zeroAddr then answer st "err:funds" else
+      match runFlow [.send (.erc ct) (.user u) (partyAddr p) n] st.u.L with
+      | .ok L => answer { st with u := { st.u with L := compact st.ext L } } "ok"
+      | .error e => answer st ("err:" ++ showErr e)
     | _ => (st, "bad-op")
   | ["kill", ct] =>
     match ct.toNat? with
